@@ -73,6 +73,19 @@ def scan_assumptions(text):
     return res
 
 
+def prelude_fn(ub, line):
+    """the lemma / spec function of hand-written or generated specification text that encloses a generated line"""
+    try:
+        lines = ub.gen.lines
+        for k in range(min(line, len(lines)) - 1, max(0, line - 80), -1):
+            m = re.search(r'\b(?:proof\s+)?fn\s+(\w+)', lines[k] if isinstance(lines[k], str) else lines[k][0])
+            if m:
+                return '<prelude>::' + m.group(1)
+    except Exception:
+        pass
+    return '<prelude>'
+
+
 def run_verus(path, rlimit=None, threads=None, extra=()):
     cmd = ['verus', path, '--output-json', '--time', '--error-format=json',
            '--multiple-errors', os.environ.get('VERIF_MULTI_ERRORS', '4'), '--num-threads', str(threads or os.cpu_count() or 8)]
@@ -319,7 +332,7 @@ def run_unit(modname, keep_dir=None, rlimit=None):
             rec['site_origin'] = origin
         else:
             f, origin = ub.locate(rec['line'])
-            rec['fn'] = f['qname'] if f else '<prelude>'
+            rec['fn'] = f['qname'] if f else prelude_fn(ub, rec['line'])
             rec['origin'] = origin
             rec['site_origin'] = origin
         if rec['fn'].endswith('__canary'):
